@@ -32,6 +32,8 @@ def build_schemas(raw_schemas: dict[str, Mapping[str, Any]], raw_components: Map
         raise TypeError("raw_schemas must be a dict")
     if not isinstance(raw_components, Mapping):
         raise TypeError("raw_components must be a Mapping")
+    if "" in raw_schemas:
+        raise ValueError("components.schemas contains a schema with an empty name")
 
     context = ParsingContext(raw_spec_schemas=raw_schemas, raw_spec_components=raw_components)
 
